@@ -114,6 +114,10 @@ def run(ctx):
             check_case(g, cfg, r[1], spec, kf, reproduced, viol)
         if len(samples) < 2 and len(g) < 12:
             samples.append({"nt": to_nt(g), "threshold": list(cfg['th']), "shexc": r[2]})
+    v3, d3, st3 = base.shape_map_cases(ctx, 40 if ctx.tier == "quick" else 500, "keys / figures")
+    viol += v3
+    dis += d3
+    stats["shape_map_cases"] = st3
     # ---------------- directed: every boundary k/n of larger classes - a feature of exactly k of n instances at threshold k/n is kept,
     # and dropped at the next grid point (k+1)/n; (k, n) includes the pairs where k >= (k/n)*n fails in floating point
     nmax = 30 if ctx.tier == "quick" else 60
